@@ -27,7 +27,8 @@ RULE = ("job = seed -> proof site x corruption class x key type x version. "
         "expected identity.  distinct = digest(scenario, site, class); "
         "non-trivial = fault fired (or honest twin completed)"
         ' Further sites/classes: delegated credential (honest twin; flipped delegation; delegation by another key; impostor chain with the credential on the second entry or on the victim entry), post-handshake Finished flipped, SRP user name with no SRP suite offered, DER signatures extended INSIDE the SEQUENCE.'
-        ' Consistent liar that really signs ServerKeyExchange with an unoffered hash; identical signatures in two different handshakes (proof independent of the transcript).')
+        ' Consistent liar that really signs ServerKeyExchange with an unoffered hash; identical signatures in two different handshakes (proof independent of the transcript).'
+        ' SRP: a password-less client sending A = k*N (k = 0,1,2,3,7) with premaster 0.  Checker site in both roles, with the transport failing exactly at the refusal alert (the refused session must not stay resumable).  liar_scheme: the client really signs (in-handshake and post-handshake CertificateVerify) under a scheme that does not belong to its key.')
 LEVEL_TEXT = ("Seeded search over (site, corruption, key type, version); "
               "every run also executes the honest twin so that the oracle is "
               "shown not to alarm on valid proofs.")
@@ -180,6 +181,10 @@ def scenario_for(site, ch):
               "sset": {"minVersion": list(ver), "maxVersion": list(ver)}}
         return sc, "c"
     if site == "checker":
+        if ch.draw(3, "s.chkside") == 1:
+            # the server's Checker refuses the client's certificate
+            sc = scen.draw_flavour(ch, label="s", allow=["cert_cauth"])
+            return sc, "s"
         sc = scen.draw_flavour(ch, label="s", allow=["cert", "cert_cauth",
                                                      "hrr"])
         return sc, "c"
@@ -249,13 +254,17 @@ def run(job, streams=None):
     # ---------------- choose the corruption
     fired = []
     rules = []
+    awf = None
     sc2 = json.loads(json.dumps(sc))
     pre_setup = None
     post = None
     SIGCLS = ["flip", "empty", "trunc", "extend", "other_scheme",
               "other_transcript", "wrong_key", "omitted", "degenerate",
               "degenerate",
-              "other_transcript", "other_transcript"]
+              "other_transcript", "other_transcript", "liar_scheme"]
+    LIAR = {"rsa": [(4, 1), (8, 9), (2, 1), (8, 10), (4, 3)],
+            "ecdsa": [(5, 3), (6, 3), (8, 4), (4, 1), (2, 3)],
+            "ed25519": [(8, 8), (4, 3), (8, 4)]}
 
     def sig_rule(clsname, attr_sig, cls_):
         def rule(msg, c):
@@ -307,6 +316,17 @@ def run(job, streams=None):
             "CertificateVerify"
         if site == "ske_sig" and cls == "omitted":
             cls = "empty"
+        if cls == "liar_scheme":
+            # consistent liar: the client really signs with its key, but
+            # under a scheme that does not belong to that key (other family,
+            # other curve, PKCS#1 v1.5 in TLS 1.3)
+            if site in ("pha", "cli_cv13") and sc.get("ckey") in LIAR:
+                alts = LIAR[sc["ckey"]]
+                sc2["_liar_scheme"] = list(alts[ch.draw(len(alts),
+                                                        "c.liars")])
+                probes["liar_scheme"] = 1
+            else:
+                cls = "flip"
         if cls in ("flip", "empty", "trunc", "extend", "omitted",
                    "degenerate"):
             rules.append(sig_rule(clsname, "signature", cls))
@@ -386,6 +406,15 @@ def run(job, streams=None):
             return [msg]
         rules.append(rule)
         probes["srp_no_suite"] = 1
+    elif site == "srp" and ch.draw(3, "c.srpdeg") == 1:
+        # a client that does not know the password sends A = k*N, for which
+        # the server's premaster secret is the constant 0 whatever the
+        # verifier is (RFC 5054 2.5.4: A % N == 0 must abort)
+        cls = "degenerate"
+        sc2["srp_pass"] = "not-the-password"
+        sc2["_srp_k"] = [0, 1, 2, 3, 7][ch.draw(5, "c.srpk")]
+        fired.append("srp_A_is_%d_times_N" % sc2["_srp_k"])
+        probes["srp_degenerate_A"] = 1
     elif site == "srp":
         cls = "wrong_key"
         sc2["srp_pass"] = "not-the-password"
@@ -472,8 +501,10 @@ def run(job, streams=None):
     elif site == "checker":
         cls = "wrong_key"
         from tlslite.api import Checker
-        sc2["_checker_c"] = Checker(x509Fingerprint="00" * 20)
+        sc2["_checker_" + victim] = Checker(x509Fingerprint="00" * 20)
         fired.append("checker")
+        # the transport may fail exactly while the refusal alert is written
+        awf = [None, None, "timeout", "epipe", "reset"][ch.draw(5, "c.awf")]
     probes[cls] = 1
     ctx[0] = "[site=%s class=%s victim=%s scenario=%s]" % (
         site, cls, victim, json.dumps({k: v_ for k, v_ in sc2.items()
@@ -482,6 +513,22 @@ def run(job, streams=None):
 
     # ---------------- faulted run
     sim, pair, peer, vic, ip = build(ch, rules, sc2)
+    awf_tap = None
+    if awf:
+        awf_tap = taps.AlertWriteFault(vic.conn, vic.sock, awf,
+                                       fatal_only=False)
+    def install_liar(conn):
+        forced = tuple(sc2["_liar_scheme"])
+        orig_l = conn._sigHashesToList
+
+        def lying(settings, privateKey=None, certList=None, version=(3, 3)):
+            if privateKey is not None and version == (3, 4):
+                fired.append("signed_under_%s_%s" % forced)
+                return [forced]
+            return orig_l(settings, privateKey, certList, version)
+        conn._sigHashesToList = lying
+    if sc2.get("_liar_scheme") and site == "cli_cv13":
+        install_liar(peer.conn)
     if sc2.get("_liar_hash"):
         lh = sc2["_liar_hash"]
         peer.conn._pickServerKeyExchangeSig = \
@@ -499,14 +546,25 @@ def run(job, streams=None):
                 return chain, wk
             return chain, key
         creds.load = patched
+    srp_orig = None
+    if "_srp_k" in sc2:
+        from tlslite import keyexchange as KX
+        from tlslite.utils.cryptomath import numberToByteArray
+        srp_orig = KX.SRPKeyExchange.processServerKeyExchange
+        k_ = sc2["_srp_k"]
+
+        def evil(self_, pk, ske):
+            srp_orig(self_, pk, ske)
+            self_.A = k_ * ske.srp_N
+            return numberToByteArray(0)
+        KX.SRPKeyExchange.processServerKeyExchange = evil
     try:
-        if site == "pha":
-            oc, os_, st = pair.handshake()
-        else:
-            oc, os_, st = pair.handshake()
+        oc, os_, st = pair.handshake()
     finally:
         if sc2.get("_wrong_key"):
             creds.load = orig_load
+        if srp_orig is not None:
+            KX.SRPKeyExchange.processServerKeyExchange = srp_orig
     vo = oc if victim == "c" else os_
     po = os_ if victim == "c" else oc
     verdict = False
@@ -514,6 +572,8 @@ def run(job, streams=None):
         if oc.kind == "ok" and os_.kind == "ok":
             before = pair.s.conn.session.clientCertChain
             eps = {"c": pair.c, "s": pair.s}
+            if sc2.get("_liar_scheme"):
+                install_liar(pair.c.conn)
 
             def op_gen(ep, op):
                 if op[1] == "pha":
@@ -560,7 +620,11 @@ def run(job, streams=None):
             e = vo.exc
             # C05 only demands rejection; the *kind* of failure (alert
             # first, library exception types) is judged by C08.
-            if site == "checker":
+            if awf_tap is not None and awf_tap.fired:
+                probes["alert_write_fault"] = 1
+            if site == "checker" and not (
+                    awf_tap is not None and awf_tap.fired and
+                    isinstance(e, OSError)):
                 if not isinstance(e, TLSAuthenticationError):
                     v("wrong_error", type(e).__name__, "Checker mismatch "
                       "surfaced as %r" % (e,))
